@@ -94,6 +94,85 @@ Proof.
   cbn [strict_ok_from]. destruct (strict_rems (prem p) act); auto.
 Qed.
 
+(* ---------- checkable forms of the hypotheses ---------- *)
+Lemma is_nil_true {A} (l : list A) : is_nil l = true -> l = [].
+Proof. destruct l; [reflexivity|discriminate]. Qed.
+
+Fixpoint ssortedb (t : fmts) : bool :=
+  match t with
+  | (k, _) :: (((k', _) :: _) as r) => (k <? k') && ssortedb r
+  | _ => true
+  end.
+
+Lemma ssortedb_sound t : ssortedb t = true -> ssorted t.
+Proof.
+  induction t as [|[k p] t IH]; intros H; [constructor|].
+  destruct t as [|[k' p'] t]; [constructor; [intros kp []|constructor]|].
+  cbn [ssortedb] in H. apply andb_true_iff in H as [H1 H2]. apply Nat.ltb_lt in H1.
+  specialize (IH H2). constructor; auto. inversion IH as [|? ? ? Hk Hs]; subst.
+  intros kp [<-|Hin]; cbn [fst]; auto. specialize (Hk kp Hin). lia.
+Qed.
+
+Fixpoint nodupb (l : list nat) : bool :=
+  match l with [] => true | x :: r => negb (existsb (Nat.eqb x) r) && nodupb r end.
+
+Lemma nodupb_sound l : nodupb l = true -> NoDup l.
+Proof.
+  induction l as [|x l IH]; intros H; [constructor|]. cbn in H. apply andb_true_iff in H as [H1 H2].
+  constructor; auto. intros Hin. apply negb_true_iff in H1.
+  assert (existsb (Nat.eqb x) l = true) by (apply existsb_exists; exists x; split; auto; apply Nat.eqb_refl).
+  congruence.
+Qed.
+
+Lemma nodup_upto_states : forall t act k, NoDup (ids act) ->
+  (forall st, In st (iter_states t act) -> NoDup (ids (snd st))) -> NoDup (ids (active_upto t k act)).
+Proof.
+  induction t as [|[k0 p] t IH]; intros act k Ha Hst; [exact Ha|]. cbn [active_upto].
+  destruct (k0 <=? k); [|exact Ha]. apply IH.
+  - apply (Hst (k0, p, step act p)). now left.
+  - intros st Hin. apply Hst. now right.
+Qed.
+
+Definition wfb (s : astr) : bool :=
+  ssortedb (tbl s) && forallb (fun kp => fst kp <=? length (base s)) (tbl s) && strict_ok (tbl s)
+  && forallb (fun st => nodupb (ids (snd st))) (iter_states (tbl s) []) && is_nil (final_active (tbl s)).
+
+Lemma wfb_sound s : wfb s = true -> WF s.
+Proof.
+  unfold wfb. intros H.
+  apply andb_true_iff in H as [H H5]. apply andb_true_iff in H as [H H4].
+  apply andb_true_iff in H as [H H3]. apply andb_true_iff in H as [H1 H2].
+  unfold WF. split; [|split; [|split; [|split]]].
+  - now apply ssortedb_sound.
+  - intros kp Hin. rewrite forallb_forall in H2. apply Nat.leb_le. auto.
+  - exact H3.
+  - intros k. apply nodup_upto_states; [constructor|]. intros st Hin.
+    rewrite forallb_forall in H4. apply nodupb_sound. auto.
+  - now apply is_nil_true.
+Qed.
+
+(* example operands, used below to show that the hypotheses of the theorems are satisfiable *)
+Definition S_ (i : nat) (t : N) : setting := mkS i [t].
+(* "ab" with two settings on both characters *)
+Definition ex_a : astr :=
+  mkA [97; 98]%N [(0, mkP [S_ 1 10; S_ 2 20] []); (2, mkP [] [S_ 1 10; S_ 2 20])].
+(* "cde" starting with settings of the same values (other objects): merges with ex_a *)
+Definition ex_b_same : astr :=
+  mkA [99; 100; 101]%N [(0, mkP [S_ 3 10; S_ 4 20] []); (1, mkP [] [S_ 4 20]); (3, mkP [] [S_ 3 10])].
+(* only the first of them: merges too *)
+Definition ex_b_prefix : astr := mkA [99; 100; 101]%N [(0, mkP [S_ 3 10] []); (3, mkP [] [S_ 3 10])].
+(* same values in the other order: no merge *)
+Definition ex_b_swapped : astr :=
+  mkA [99; 100; 101]%N [(0, mkP [S_ 4 20; S_ 3 10] []); (1, mkP [] [S_ 4 20]); (3, mkP [] [S_ 3 10])].
+(* formatting that starts later *)
+Definition ex_b_late : astr := mkA [99; 100; 101]%N [(1, mkP [S_ 3 10] []); (3, mkP [] [S_ 3 10])].
+
+Example ex_a_WF : WF ex_a. Proof. apply wfb_sound. reflexivity. Qed.
+Example ex_b_same_WF : WF ex_b_same. Proof. apply wfb_sound. reflexivity. Qed.
+Example ex_b_prefix_WF : WF ex_b_prefix. Proof. apply wfb_sound. reflexivity. Qed.
+Example ex_b_swapped_WF : WF ex_b_swapped. Proof. apply wfb_sound. reflexivity. Qed.
+Example ex_b_late_WF : WF ex_b_late. Proof. apply wfb_sound. reflexivity. Qed.
+
 (* ---------- structure of the loop ---------- *)
 (* once past the seam, every point of b lands on a fresh key: the loop only appends *)
 Fixpoint tail_loop (inc : fmts) (L : nat) (find repl : list setting) : res fmts :=
@@ -151,14 +230,15 @@ Proof.
 Qed.
 
 (* the merge test of __iadd__ *)
-Definition merge_cond (pa ip0 : point) (seam : list setting) : bool :=
+Definition merge_cond (pa ip0 : point) (seam : list setting) (inc : fmts) : bool :=
   negb (is_nil (padd ip0))
   && list_eqb same_val (firstn (length (padd ip0)) (prem pa)) (padd ip0)
-  && positions_sorted (firstn (length (padd ip0)) (prem pa)) seam.
+  && positions_sorted (firstn (length (padd ip0)) (prem pa)) seam
+  && seam_fresh_check (combine (prem pa) (padd ip0)) inc.
 
 Definition merges (a b : astr) : bool :=
   match tget (length (base a)) (tbl a), tget 0 (tbl b) with
-  | Some pa, Some ip0 => merge_cond pa ip0 (seam_of a)
+  | Some pa, Some ip0 => merge_cond pa ip0 (seam_of a) (tbl b)
   | _, _ => false
   end.
 
@@ -180,7 +260,7 @@ Lemma iadd_seam a b t0 pa ip0 rest :
   tbl b = (0, ip0) :: rest -> ssorted (tbl b) ->
   let L := length (base a) in
   iadd a b =
-  if merge_cond pa ip0 (seam_of a) then
+  if merge_cond pa ip0 (seam_of a) (tbl b) then
     let mine' := mkP (padd pa) (skipn (length (padd ip0)) (prem pa) ++ prem ip0) in
     match tail_loop rest L (padd ip0) (firstn (length (padd ip0)) (prem pa)) with
     | OK r => OK (mkA (base a ++ base b) ((if point_is_empty mine' then t0 else t0 ++ [(L, mine')]) ++ r))
@@ -193,7 +273,8 @@ Proof.
   rewrite Eb in Hb. inversion Hb as [|? ? ? Hk Hs]; subst.
   unfold merge_cond.
   destruct (negb (is_nil (padd ip0)) && list_eqb same_val (firstn (length (padd ip0)) (prem pa)) (padd ip0)
-            && positions_sorted (firstn (length (padd ip0)) (prem pa)) (seam_of a)) eqn:C.
+            && positions_sorted (firstn (length (padd ip0)) (prem pa)) (seam_of a)
+            && seam_fresh_check (combine (prem pa) (padd ip0)) ((0, ip0) :: rest)) eqn:C.
   - cbv zeta.
     destruct (point_is_empty _) eqn:Em.
     + rewrite tdel_snoc by exact Hlt. rewrite loop_tail; [|exact Hs|].
@@ -461,6 +542,20 @@ Proof.
         rewrite Eb in Ob. unfold strict_ok in Ob. cbn [strict_ok_from] in Ob.
         destruct (strict_rems (prem ip0) []); [reflexivity|discriminate].
 Qed.
+
+(* the hypotheses of iadd_nomerge are satisfiable: the merge test fails (order), or there is no
+   common key *)
+Example ex_nomerge_swapped : WF ex_a /\ WF ex_b_swapped /\ merges ex_a ex_b_swapped = false.
+Proof. split; [exact ex_a_WF|]. split; [exact ex_b_swapped_WF|reflexivity]. Qed.
+Example ex_nomerge_late : WF ex_a /\ WF ex_b_late /\ merges ex_a ex_b_late = false.
+Proof. split; [exact ex_a_WF|]. split; [exact ex_b_late_WF|reflexivity]. Qed.
+Example ex_nomerge_result :
+  iadd ex_a ex_b_swapped
+  = OK (mkA [97; 98; 99; 100; 101]%N
+            [(0, mkP [S_ 1 10; S_ 2 20] []);
+             (2, mkP [S_ 4 20; S_ 3 10] [S_ 1 10; S_ 2 20]);
+             (3, mkP [] [S_ 4 20]); (5, mkP [] [S_ 3 10])]).
+Proof. reflexivity. Qed.
 
 (* ---------- the retargeting of stop markers ---------- *)
 Lemma remove_nth_app {A} (pf l : list A) i : remove_nth (length pf + i) (pf ++ l) = pf ++ remove_nth i l.
@@ -916,3 +1011,1032 @@ Proof.
     + intros fr y Hfr. apply Hf. auto.
 Qed.
 End Sim.
+
+(* every state of the replay from `act` is duplicate free *)
+Fixpoint nd_from (t : fmts) (act : list setting) : Prop :=
+  NoDup (ids act) /\ match t with [] => True | (k, p) :: r => nd_from r (step act p) end.
+
+Lemma nd_from_head t act : nd_from t act -> NoDup (ids act).
+Proof. destruct t as [|[k p] r]; cbn; tauto. Qed.
+
+Definition marks_in (P : setting -> Prop) (t : fmts) : Prop :=
+  forall kp x, In kp t -> In x (padd (snd kp)) \/ In x (prem (snd kp)) -> P x.
+
+Section SimRun.
+Variable Pb : setting -> Prop.
+Variable L : nat.
+
+Lemma sim_run k : forall rest, ssorted rest -> forall FR B C,
+  Inv Pb FR B C -> strict_ok_from rest B = true -> nd_from rest B -> marks_in Pb rest ->
+  exists FR', Inv Pb FR' (run B (upto k rest)) (run C (upto (L + k) (tail_spec rest L FR))).
+Proof.
+  induction 1 as [|k0 ip rest Hk Hs IH]; intros FR B C HI Hso Hnd HP.
+  - exists FR. exact HI.
+  - cbn [strict_ok_from] in Hso. destruct (strict_rems (prem ip) B) as [B1|] eqn:E1; [|discriminate].
+    cbn [nd_from] in Hnd. destruct Hnd as [NB Hnd].
+    assert (Est : step B ip = B1 ++ padd ip) by (rewrite step_rmall; now rewrite (strict_rems_some _ _ _ E1)).
+    rewrite Est in Hnd.
+    destruct (inv_step Pb FR B C ip B1 HI E1 (nd_from_head _ _ Hnd)) as [Sc HI'].
+    { intros x Hx. apply (HP (k0, ip) x); [now left|now left]. }
+    { intros x Hx. apply (HP (k0, ip) x); [now left|now right]. }
+    cbn [tail_spec]. rewrite !upto_cons. destruct (k0 <=? k) eqn:E.
+    + apply Nat.leb_le in E. replace (k0 + L <=? L + k) with true by (symmetry; apply Nat.leb_le; lia).
+      rewrite !run_cons, Est. rewrite step_rmall. cbn [prem padd].
+      rewrite <- (strict_rems_some _ _ _ Sc).
+      apply IH; auto. intros kp x Hin Hx. apply (HP kp x); auto. now right.
+    + apply Nat.leb_gt in E. replace (k0 + L <=? L + k) with false by (symmetry; apply Nat.leb_gt; lia).
+      rewrite (upto_all_gt k k0 rest Hk E). rewrite upto_none.
+      * exists FR. exact HI.
+      * intros kp Hin. apply tail_spec_keys in Hin as (kp0 & H0 & ->). specialize (Hk kp0 H0). lia.
+Qed.
+
+Lemma sim_strict : forall rest FR B C,
+  Inv Pb FR B C -> strict_ok_from rest B = true -> nd_from rest B -> marks_in Pb rest ->
+  strict_ok_from (tail_spec rest L FR) C = true.
+Proof.
+  induction rest as [|[k0 ip] rest IH]; intros FR B C HI Hso Hnd HP; [reflexivity|].
+  cbn [strict_ok_from] in Hso. destruct (strict_rems (prem ip) B) as [B1|] eqn:E1; [|discriminate].
+  cbn [nd_from] in Hnd. destruct Hnd as [NB Hnd].
+  assert (Est : step B ip = B1 ++ padd ip) by (rewrite step_rmall; now rewrite (strict_rems_some _ _ _ E1)).
+  rewrite Est in Hnd.
+  destruct (inv_step Pb FR B C ip B1 HI E1 (nd_from_head _ _ Hnd)) as [Sc HI'].
+  { intros x Hx. apply (HP (k0, ip) x); [now left|now left]. }
+  { intros x Hx. apply (HP (k0, ip) x); [now left|now right]. }
+  cbn [tail_spec strict_ok_from prem padd]. rewrite Sc.
+  apply (IH _ _ _ HI' Hso Hnd). intros kp x Hin Hx. apply (HP kp x); auto. now right.
+Qed.
+End SimRun.
+
+(* ---------- the order test at the seam ---------- *)
+Fixpoint sortedb (l : list nat) : bool :=
+  match l with
+  | a :: ((b :: _) as r) => (a <=? b) && sortedb r
+  | _ => true
+  end.
+Definition enc (S : list setting) (x : setting) : nat :=
+  match find_ref x S with Some n => Datatypes.S n | None => O end.
+
+Lemma positions_sorted_enc R S : positions_sorted R S = sortedb (map (enc S) R).
+Proof. reflexivity. Qed.
+
+Lemma sortedb_tail a l : sortedb (a :: l) = true -> sortedb l = true.
+Proof. destruct l as [|b l]; [reflexivity|]. cbn. intros H. apply andb_true_iff in H. tauto. Qed.
+
+Lemma sortedb_head_le : forall l a, sortedb (a :: l) = true -> forall x, In x l -> a <= x.
+Proof.
+  induction l as [|b l IH]; intros a H x Hx; [destruct Hx|].
+  cbn [sortedb] in H. apply andb_true_iff in H as [H1 H2]. apply Nat.leb_le in H1.
+  destruct Hx as [<-|Hx]; auto. specialize (IH b H2 x Hx). lia.
+Qed.
+
+Lemma sortedb_map_S l : sortedb (map Datatypes.S l) = sortedb l.
+Proof.
+  induction l as [|a l IH]; [reflexivity|]. destruct l as [|b l]; [reflexivity|].
+  cbn [map sortedb] in *. now rewrite IH.
+Qed.
+
+Lemma enc_cons z S x : enc (z :: S) x = if same_ref x z then 1 else match enc S x with O => O | n => Datatypes.S n end.
+Proof. unfold enc. cbn [find_ref]. destruct (same_ref x z); auto. destruct (find_ref x S); reflexivity. Qed.
+
+Lemma enc_pos S x : In (sid x) (ids S) -> 0 < enc S x.
+Proof.
+  intros H. unfold enc. destruct (find_ref x S) eqn:F; [lia|]. exfalso.
+  unfold ids in H. apply in_map_iff in H as (y & E & Hy).
+  pose proof (find_ref_none_all x S F y Hy) as N. unfold same_ref in N. apply Nat.eqb_neq in N. congruence.
+Qed.
+
+Lemma in_ref_cons x s l : in_ref x (s :: l) = same_ref x s || in_ref x l.
+Proof. unfold in_ref. cbn [find_ref]. destruct (same_ref x s); auto. destruct (find_ref x l); reflexivity. Qed.
+
+Lemma in_ref_nil x : in_ref x [] = false.
+Proof. reflexivity. Qed.
+
+(* the settings of S whose identity is in R come in the order of R *)
+Lemma seam_order : forall S R, NoDup (ids S) -> NoDup (ids R) ->
+  (forall r, In r R -> In (sid r) (ids S)) -> sortedb (map (enc S) R) = true ->
+  ids (filter (fun x => in_ref x R) S) = ids R.
+Proof.
+  induction S as [|z S IH]; intros R NS NR HR Hso.
+  - destruct R as [|r R]; [reflexivity|]. destruct (HR r (or_introl eq_refl)).
+  - inversion NS as [|? ? Hnz NS']; subst. cbn [filter].
+    destruct (in_ref z R) eqn:Ez.
+    + (* z is one of R: it must be the first *)
+      destruct R as [|r R]; [discriminate|].
+      assert (Erz : sid r = sid z).
+      { destruct (Nat.eq_dec (sid r) (sid z)) as [E|NE]; auto. exfalso.
+        rewrite in_ref_cons in Ez. unfold same_ref at 1 in Ez.
+        replace (Nat.eqb (sid z) (sid r)) with false in Ez by (symmetry; apply Nat.eqb_neq; congruence).
+        cbn [orb] in Ez. apply in_ref_spec in Ez as (r0 & Hr0 & E0).
+        cbn [map] in Hso. pose proof (sortedb_head_le _ _ Hso (enc (z :: S) r0) (in_map _ _ _ Hr0)) as Hle.
+        rewrite !enc_cons in Hle. unfold same_ref in Hle.
+        replace (Nat.eqb (sid r0) (sid z)) with true in Hle by (symmetry; now apply Nat.eqb_eq).
+        replace (Nat.eqb (sid r) (sid z)) with false in Hle by (symmetry; now apply Nat.eqb_neq).
+        assert (0 < enc S r).
+        { apply enc_pos. destruct (HR r (or_introl eq_refl)) as [H|H]; [congruence|exact H]. }
+        destruct (enc S r); lia. }
+      inversion NR as [|? ? Hnr NR']; subst. cbn [ids map]. f_equal; [congruence|].
+      change (map sid R) with (ids R). rewrite <- (IH R NS' NR').
+      * unfold ids. f_equal. apply filter_ext_in. intros x Hx. rewrite in_ref_cons.
+        unfold same_ref. replace (Nat.eqb (sid x) (sid r)) with false; [reflexivity|].
+        symmetry. apply Nat.eqb_neq. intros E. apply Hnz. unfold ids. apply in_map_iff. exists x. split; congruence.
+      * intros r' Hr'. destruct (HR r' (or_intror Hr')) as [H|H]; auto. exfalso.
+        apply Hnr. unfold ids. apply in_map_iff. exists r'. split; congruence.
+      * cbn [map] in Hso. apply sortedb_tail in Hso.
+        rewrite <- sortedb_map_S. rewrite map_map. erewrite map_ext_in; [exact Hso|].
+        intros r' Hr'. cbn beta. rewrite enc_cons. unfold same_ref.
+        replace (Nat.eqb (sid r') (sid z)) with false.
+        2:{ symmetry. apply Nat.eqb_neq. intros E. apply Hnr. unfold ids. apply in_map_iff. exists r'. split; congruence. }
+        assert (0 < enc S r').
+        { apply enc_pos. destruct (HR r' (or_intror Hr')) as [H|H]; auto. exfalso.
+          apply Hnr. unfold ids. apply in_map_iff. exists r'. split; congruence. }
+        destruct (enc S r'); [lia|reflexivity].
+    + (* z is not in R *)
+      assert (Hz : forall r, In r R -> sid r <> sid z).
+      { intros r Hr E. rewrite in_ref_false in Ez. apply (Ez r Hr). exact E. }
+      apply IH; auto.
+      * intros r Hr. destruct (HR r Hr) as [H|H]; auto. exfalso. apply (Hz r Hr). congruence.
+      * rewrite <- sortedb_map_S. rewrite map_map. erewrite map_ext_in; [exact Hso|].
+        intros r Hr. cbn beta. rewrite enc_cons. unfold same_ref.
+        replace (Nat.eqb (sid r) (sid z)) with false by (symmetry; apply Nat.eqb_neq; auto).
+        assert (0 < enc S r).
+        { apply enc_pos. destruct (HR r Hr) as [H|H]; auto. exfalso. apply (Hz r Hr). congruence. }
+        destruct (enc S r); [lia|reflexivity].
+Qed.
+
+(* removal from a duplicate-free list is a filter *)
+Lemma remove_ref_filter s S : NoDup (ids S) -> remove_ref s S = filter (fun x => negb (same_ref s x)) S.
+Proof.
+  induction S as [|z S IH]; intros Hnd; [reflexivity|]. inversion Hnd as [|? ? Hn Hd]; subst.
+  cbn [remove_ref filter]. destruct (same_ref s z) eqn:E; cbn [negb].
+  - symmetry. apply filter_all_true. intros x Hx. apply negb_true_iff. unfold same_ref in *.
+    apply Nat.eqb_eq in E. apply Nat.eqb_neq. intros E2. apply Hn. unfold ids. apply in_map_iff. exists x. split; congruence.
+  - f_equal. auto.
+Qed.
+
+Lemma rmall_filter l : forall S, NoDup (ids S) -> rmall l S = filter (fun x => negb (in_ref x l)) S.
+Proof.
+  induction l as [|s l IH]; intros S Hnd.
+  - cbn. symmetry. apply filter_all_true. intros; reflexivity.
+  - cbn [rmall fold_left]. change (fold_left (fun a s0 => remove_ref s0 a) l (remove_ref s S)) with (rmall l (remove_ref s S)).
+    rewrite IH by now apply remove_ref_nodup. rewrite remove_ref_filter by exact Hnd. rewrite filter_filter.
+    apply filter_ext. intros x. rewrite in_ref_cons, negb_orb. unfold same_ref. rewrite (Nat.eqb_sym (sid x) (sid s)).
+    apply andb_comm.
+Qed.
+
+Lemma same_ids_eq : forall X Y : list setting, ids X = ids Y ->
+  (forall x y, In x X -> In y Y -> sid x = sid y -> x = y) -> X = Y.
+Proof.
+  induction X as [|x X IH]; intros [|y Y] E H; try discriminate; [reflexivity|].
+  cbn in E. inversion E. f_equal.
+  - apply H; auto; now left.
+  - apply IH; auto. intros; apply H; auto; now right.
+Qed.
+
+Lemma map_ren_combine : forall F R, NoDup (ids F) -> length F = length R -> map (ren (combine F R)) F = R.
+Proof.
+  induction F as [|f F IH]; intros [|r R] Hnd Hl; try discriminate; [reflexivity|].
+  inversion Hnd as [|? ? Hn Hd]; subst. cbn [combine map]. f_equal.
+  - unfold ren. cbn [List.find fst snd]. unfold same_ref. now rewrite Nat.eqb_refl.
+  - rewrite <- (IH R Hd) at 2 by (cbn in Hl; lia). apply map_ext_in. intros x Hx.
+    unfold ren. cbn [List.find fst]. unfold same_ref at 1.
+    replace (Nat.eqb (sid f) (sid x)) with false; [reflexivity|].
+    symmetry. apply Nat.eqb_neq. intros E. apply Hn. unfold ids. apply in_map_iff. exists x. split; congruence.
+Qed.
+
+Lemma list_eqb_val_length : forall R F, list_eqb same_val R F = true -> length R = length F.
+Proof.
+  induction R as [|r R IH]; intros [|f F] H; cbn in *; try discriminate; auto.
+  apply andb_true_iff in H as [_ H]. f_equal. auto.
+Qed.
+
+Lemma list_eqb_val_texts : forall R F, list_eqb same_val R F = true ->
+  forall fr, In fr (combine F R) -> stxt (fst fr) = stxt (snd fr).
+Proof.
+  induction R as [|r R IH]; intros [|f F] H fr Hin; cbn in *; try discriminate; try tauto.
+  apply andb_true_iff in H as [H1 H2]. destruct Hin as [<-|Hin]; [|eapply IH; eauto].
+  cbn. unfold same_val in H1. apply str_eqb_eq in H1. auto.
+Qed.
+
+Lemma combine_firstn_r {A B} : forall (l : list A) (l' : list B), combine l (firstn (length l) l') = combine l l'.
+Proof. induction l as [|x l IH]; intros [|y l']; cbn; auto. now rewrite IH. Qed.
+
+Lemma nodup_app_l (X Y : list nat) : NoDup (X ++ Y) -> NoDup X.
+Proof.
+  induction X as [|x X IH]; cbn; intros H; [constructor|]. inversion H as [|? ? Hn Hd]; subst.
+  constructor; auto. intros Hx. apply Hn. apply in_or_app. now left.
+Qed.
+
+Lemma nodup_app_r (X Y : list nat) : NoDup (X ++ Y) -> NoDup Y.
+Proof. induction X as [|x X IH]; cbn; intros H; auto. inversion H; auto. Qed.
+
+Lemma in_ref_app x l1 l2 : in_ref x (l1 ++ l2) = in_ref x l1 || in_ref x l2.
+Proof.
+  induction l1 as [|s l1 IH]; [reflexivity|]. cbn [app]. rewrite !in_ref_cons, IH. apply orb_assoc.
+Qed.
+
+Lemma setting_eq (x y : setting) : sid x = sid y -> stxt x = stxt y -> x = y.
+Proof. destruct x, y; cbn; congruence. Qed.
+
+Lemma ids_app X Y : ids (X ++ Y) = ids X ++ ids Y.
+Proof. unfold ids. apply map_app. Qed.
+
+(* what is left at the seam after a's non-merged stop markers: exactly the merged ones, in order *)
+Lemma seam_state S pm n :
+  NoDup (ids S) -> strict_rems pm S = Some [] ->
+  positions_sorted (firstn n pm) S = true ->
+  (forall x y, In x S -> In y pm -> sid x = sid y -> x = y) ->
+  rmall (skipn n pm) S = firstn n pm /\ NoDup (ids (firstn n pm)) /\ NoDup (ids pm).
+Proof.
+  intros NS Hst Hpos Hco. set (R := firstn n pm) in *. set (Q := skipn n pm).
+  assert (Epm : pm = R ++ Q) by (symmetry; apply firstn_skipn).
+  assert (Npm : NoDup (ids pm)) by (eapply strict_rems_nodup; eauto).
+  assert (NRQ : NoDup (ids R ++ ids Q)) by (rewrite <- ids_app, <- Epm; exact Npm).
+  assert (NR : NoDup (ids R)) by (eapply nodup_app_l; eauto).
+  split; [|split; auto].
+  pose proof (strict_rems_some _ _ _ Hst) as Hall. rewrite (rmall_filter pm S NS) in Hall.
+  rewrite (rmall_filter Q S NS).
+  assert (Hx : forall x, In x S -> negb (in_ref x Q) = in_ref x R).
+  { intros x Hx. assert (Hin : in_ref x pm = true).
+    { destruct (in_ref x pm) eqn:E; auto. exfalso.
+      assert (In x (filter (fun x => negb (in_ref x pm)) S)) by (apply filter_In; split; auto; now rewrite E).
+      rewrite <- Hall in H. destruct H. }
+    rewrite Epm, in_ref_app in Hin. destruct (in_ref x R) eqn:ER; destruct (in_ref x Q) eqn:EQ; auto; try discriminate.
+    exfalso. apply in_ref_spec in ER as (r & Hr & Er). apply in_ref_spec in EQ as (q & Hq & Eq).
+    apply (nodup_app_disjoint (ids R) (ids Q) (sid x) NRQ).
+    - rewrite <- Er. unfold ids. now apply in_map.
+    - rewrite <- Eq. unfold ids. now apply in_map. }
+  rewrite (filter_ext_in _ _ _ Hx).
+  apply same_ids_eq.
+  - apply seam_order; auto. intros r Hr. eapply strict_rems_in; eauto. rewrite Epm. apply in_or_app. now left.
+  - intros x y Hx' Hy. apply Hco.
+    + apply filter_In in Hx'. tauto.
+    + rewrite Epm. apply in_or_app. now left.
+Qed.
+
+Lemma remove_ref_ids_keep i s S : In i (ids S) -> i <> sid s -> In i (ids (remove_ref s S)).
+Proof.
+  intros H Hne. unfold ids in *. apply in_map_iff in H as (y & <- & Hy). apply in_map.
+  apply remove_ref_keep; auto.
+Qed.
+
+Lemma strict_rems_total l : forall S, NoDup (ids l) -> (forall s, In s l -> In (sid s) (ids S)) ->
+  strict_rems l S = Some (rmall l S).
+Proof.
+  induction l as [|s l IH]; intros S Nl Hin; [reflexivity|]. cbn [strict_rems].
+  inversion Nl as [|? ? Hn Hd]; subst.
+  assert (E : in_ref s S = true).
+  { apply in_ref_spec. specialize (Hin s (or_introl eq_refl)). unfold ids in Hin.
+    apply in_map_iff in Hin as (y & Ey & Hy). eauto. }
+  rewrite E. apply IH; auto. intros s' Hs'. apply remove_ref_ids_keep; [apply Hin; now right|].
+  intros E2. apply Hn. unfold ids. apply in_map_iff. exists s'. split; auto.
+Qed.
+
+Lemma map_fst_combine {A B} : forall (l : list A) (l' : list B), length l = length l' -> map fst (combine l l') = l.
+Proof. induction l as [|x l IH]; intros [|y l'] H; cbn in *; try discriminate; auto. f_equal. auto. Qed.
+
+Lemma map_snd_combine {A B} : forall (l : list A) (l' : list B), length l = length l' -> map snd (combine l l') = l'.
+Proof. induction l as [|x l IH]; intros [|y l'] H; cbn in *; try discriminate; auto. f_equal. auto. Qed.
+
+Lemma prems_nodup : forall rest B, strict_ok_from rest B = true -> nd_from rest B ->
+  forall kp, In kp rest -> NoDup (ids (prem (snd kp))).
+Proof.
+  induction rest as [|[k0 ip] rest IH]; intros B Hso Hnd kp Hin; [destruct Hin|].
+  cbn [strict_ok_from] in Hso. destruct (strict_rems (prem ip) B) as [B1|] eqn:E1; [|discriminate].
+  cbn [nd_from] in Hnd. destruct Hnd as [NB Hnd]. destruct Hin as [<-|Hin].
+  - cbn [snd]. eapply strict_rems_nodup; eauto.
+  - apply (IH (step B ip)); auto. rewrite step_rmall. now rewrite <- (strict_rems_some _ _ _ E1).
+Qed.
+
+Lemma ssorted_app_lt t1 : forall t2, ssorted (t1 ++ t2) -> forall x y, In x t1 -> In y t2 -> fst x < fst y.
+Proof.
+  induction t1 as [|[k p] t1 IH]; intros t2 H x y Hx Hy; [destruct Hx|].
+  cbn [app] in H. inversion H as [|? ? ? Hk Hs]; subst. destruct Hx as [<-|Hx].
+  - apply Hk. apply in_or_app. now right.
+  - eapply IH; eauto.
+Qed.
+
+Lemma nd_from_of : forall t2 t1, ssorted (t1 ++ t2) -> nodup_active (t1 ++ t2) ->
+  NoDup (ids (run [] t1)) -> nd_from t2 (run [] t1).
+Proof.
+  induction t2 as [|[k p] r IH]; intros t1 Hs Hn H1; cbn [nd_from]; [tauto|].
+  split; [exact H1|].
+  change (step (run [] t1) p) with (run (run [] t1) [(k, p)]). rewrite <- run_app.
+  assert (Eapp : (t1 ++ [(k, p)]) ++ r = t1 ++ (k, p) :: r) by (rewrite <- app_assoc; reflexivity).
+  apply IH; rewrite ?Eapp; auto.
+  specialize (Hn k). rewrite (active_at_run _ k Hs) in Hn.
+  replace (upto k (t1 ++ (k, p) :: r)) with (t1 ++ [(k, p)]) in Hn; auto.
+  rewrite upto_app, upto_cons, Nat.leb_refl. symmetry. f_equal.
+  - apply upto_all. intros x Hx. assert (fst x < k); [|lia].
+    apply (ssorted_app_lt t1 _ Hs x (k, p)); auto. now left.
+  - f_equal. apply upto_none. apply ssorted_app_inv in Hs as [_ Hs]. inversion Hs; subst. auto.
+Qed.
+
+Definition occurs (x : setting) (t : fmts) : Prop :=
+  exists kp, In kp t /\ (In x (padd (snd kp)) \/ In x (prem (snd kp))).
+
+(* identity determines text, as far as the seam of a is concerned (true of Python objects) *)
+Definition coherent_seam (a : astr) : Prop :=
+  forall pa x y, tget (length (base a)) (tbl a) = Some pa ->
+    In x (seam_of a) -> In y (prem pa) -> sid x = sid y -> stxt x = stxt y.
+
+(* an identity of b that is the identity of one of a's merged stop markers is the identity of the
+   corresponding start marker of b (vacuous when a and b share no identity) *)
+Definition seam_fresh (a b : astr) : Prop :=
+  forall pa ip0, tget (length (base a)) (tbl a) = Some pa -> tget 0 (tbl b) = Some ip0 ->
+    forall fr y, In fr (combine (padd ip0) (prem pa)) -> occurs y (tbl b) ->
+      sid y = sid (snd fr) -> sid y = sid (fst fr).
+
+(* ---------- checkable forms of the seam hypotheses ---------- *)
+Definition all_marks (t : fmts) : list setting := flat_map (fun kp => padd (snd kp) ++ prem (snd kp)) t.
+
+Lemma occurs_marks x t : occurs x t <-> In x (all_marks t).
+Proof.
+  unfold occurs, all_marks. rewrite in_flat_map. split; intros (kp & H1 & H2); exists kp; split; auto.
+  - now apply in_or_app.
+  - now apply in_app_or.
+Qed.
+
+Definition coherentb (t : fmts) : bool :=
+  forallb (fun x => forallb (fun y => negb (Nat.eqb (sid x) (sid y)) || str_eqb (stxt x) (stxt y))
+                            (all_marks t)) (all_marks t).
+Definition disjointb (ta tb : fmts) : bool :=
+  forallb (fun x => forallb (fun y => negb (Nat.eqb (sid x) (sid y))) (all_marks tb)) (all_marks ta).
+
+Lemma step_in x act p : In x (step act p) -> In x act \/ In x (padd p).
+Proof.
+  rewrite step_rmall. intros H. apply in_app_or in H as [H|H]; auto. left. eapply rmall_subset; eauto.
+Qed.
+
+Lemma active_upto_occurs x : forall t k act, In x (active_upto t k act) -> In x act \/ occurs x t.
+Proof.
+  induction t as [|[k0 p] t IH]; intros k act H; [now left|]. cbn [active_upto] in H.
+  destruct (k0 <=? k); [|now left]. apply IH in H as [H|(kp & H1 & H2)].
+  - apply step_in in H as [H|H]; auto. right. exists (k0, p). split; [now left|now left].
+  - right. exists kp. split; [now right|exact H2].
+Qed.
+
+Lemma coherent_seam_check a : ssorted (tbl a) -> coherentb (tbl a) = true -> coherent_seam a.
+Proof.
+  intros Sa H pa x y Hg Hx Hy E. unfold coherentb in H. rewrite forallb_forall in H.
+  assert (Ox : In x (all_marks (tbl a))).
+  { apply occurs_marks. unfold seam_of in Hx. destruct (length (base a)); [destruct Hx|].
+    apply active_upto_occurs in Hx as [[]|Hx]. exact Hx. }
+  assert (Oy : In y (all_marks (tbl a))).
+  { apply occurs_marks. exists (length (base a), pa). split; [now apply tget_In|now right]. }
+  specialize (H x Ox). rewrite forallb_forall in H. specialize (H y Oy).
+  apply orb_true_iff in H as [H|H].
+  - apply negb_true_iff, Nat.eqb_neq in H. congruence.
+  - now apply str_eqb_eq.
+Qed.
+
+Lemma seam_fresh_disjointb a b : ssorted (tbl a) -> disjointb (tbl a) (tbl b) = true -> seam_fresh a b.
+Proof.
+  intros Sa H pa ip0 Ga Gb fr y Hin Oy E. exfalso. unfold disjointb in H. rewrite forallb_forall in H.
+  assert (Or : In (snd fr) (all_marks (tbl a))).
+  { apply occurs_marks. exists (length (base a), pa). split; [now apply tget_In|]. right. cbn [snd].
+    destruct fr as [f r]. eapply in_combine_r; eauto. }
+  specialize (H _ Or). rewrite forallb_forall in H. apply occurs_marks in Oy. specialize (H y Oy).
+  apply negb_true_iff, Nat.eqb_neq in H. congruence.
+Qed.
+
+(* Prop-level sufficient conditions *)
+Definition coherent (t : fmts) : Prop :=
+  forall x y, occurs x t -> occurs y t -> sid x = sid y -> stxt x = stxt y.
+Definition ids_disjoint (ta tb : fmts) : Prop :=
+  forall x y, occurs x ta -> occurs y tb -> sid x <> sid y.
+
+Lemma coherent_seam_of a : ssorted (tbl a) -> coherent (tbl a) -> coherent_seam a.
+Proof.
+  intros Sa H pa x y Hg Hx Hy E. apply H; auto.
+  - unfold seam_of in Hx. destruct (length (base a)); [destruct Hx|].
+    apply active_upto_occurs in Hx as [[]|Hx]. exact Hx.
+  - exists (length (base a), pa). split; [now apply tget_In|now right].
+Qed.
+
+Lemma seam_fresh_disjoint a b : ssorted (tbl a) -> ids_disjoint (tbl a) (tbl b) -> seam_fresh a b.
+Proof.
+  intros Sa H pa ip0 Ga Gb fr y Hin Oy E. exfalso. apply (H (snd fr) y); auto.
+  exists (length (base a), pa). split; [now apply tget_In|]. right. cbn [snd].
+  destruct fr as [f r]. eapply in_combine_r; eauto.
+Qed.
+
+(* the repaired merge test implies the freshness the simulation needs *)
+Lemma in_combine_swap {A B} : forall (l : list A) (l' : list B) x y,
+  In (x, y) (combine l l') -> In (y, x) (combine l' l).
+Proof.
+  induction l as [|a l IH]; intros [|b l'] x y H; cbn in *; try tauto.
+  destruct H as [H|H]; [left; congruence|right; auto].
+Qed.
+
+Lemma seam_fresh_check_spec pairs inc : seam_fresh_check pairs inc = true ->
+  forall y m t, occurs y inc -> In (m, t) pairs -> sid y = sid m -> sid y = sid t.
+Proof.
+  unfold seam_fresh_check. intros H y m t (kp & Hin & Hy) Hp E.
+  rewrite forallb_forall in H. specialize (H kp Hin). rewrite forallb_forall in H.
+  specialize (H y (in_or_app _ _ _ Hy)). rewrite forallb_forall in H. specialize (H (m, t) Hp).
+  cbn beta iota in H. unfold same_ref in H. apply orb_true_iff in H as [H|H].
+  - apply negb_true_iff, Nat.eqb_neq in H. congruence.
+  - now apply Nat.eqb_eq.
+Qed.
+
+Lemma merges_seam_fresh a b : merges a b = true -> seam_fresh a b.
+Proof.
+  unfold merges. intros Hm pa ip0 Ga Gb. rewrite Ga, Gb in Hm. unfold merge_cond in Hm.
+  apply andb_true_iff in Hm as [_ Hf]. intros [f r] y Hin Oy E. cbn [fst snd] in *.
+  apply (seam_fresh_check_spec _ _ Hf y r f Oy); auto. now apply in_combine_swap.
+Qed.
+
+Lemma coherent_check t : coherentb t = true -> coherent t.
+Proof.
+  intros H x y Ox Oy E. unfold coherentb in H. rewrite forallb_forall in H.
+  apply occurs_marks in Ox, Oy. specialize (H x Ox). rewrite forallb_forall in H. specialize (H y Oy).
+  apply orb_true_iff in H as [H|H].
+  - apply negb_true_iff, Nat.eqb_neq in H. congruence.
+  - now apply str_eqb_eq.
+Qed.
+
+Lemma seam_of_run a t0 pa :
+  tbl a = t0 ++ [(length (base a), pa)] -> ssorted (tbl a) -> keys_lt t0 (length (base a)) ->
+  seam_of a = run [] t0.
+Proof.
+  unfold seam_of. remember (length (base a)) as L eqn:EL. intros E Hs Hlt. destruct L as [|i].
+  - destruct t0 as [|kp t0]; [reflexivity|]. specialize (Hlt kp (or_introl eq_refl)). lia.
+  - rewrite (active_at_run _ i Hs), E, upto_app. rewrite upto_all, upto_none; [now rewrite app_nil_r| |].
+    + intros kp [<-|[]]. cbn. lia.
+    + intros kp Hin. specialize (Hlt kp Hin). lia.
+Qed.
+
+Lemma seam_nodup a : nodup_active (tbl a) -> NoDup (ids (seam_of a)).
+Proof. intros H. unfold seam_of. destruct (length (base a)); [constructor|apply H]. Qed.
+
+(* ---------- the merging case ---------- *)
+Theorem iadd_merge a b : WF a -> WF b -> merges a b = true -> coherent_seam a ->
+  let L := length (base a) in
+  exists c, iadd a b = OK c /\ base c = base a ++ base b
+    /\ (forall k, k < L -> active_at (tbl c) k = active_at (tbl a) k)
+    /\ (forall k, map stxt (active_at (tbl c) (L + k)) = map stxt (active_at (tbl b) k))
+    /\ WF c.
+Proof.
+  intros Wa Wb Hm Hco L. pose proof (merges_seam_fresh a b Hm) as Hfr.
+  pose proof Wa as (Sa & Ka & Oa & Na & Fa). pose proof Wb as (Sb & Kb & Ob & Nb & Fb).
+  unfold merges in Hm. fold L in Hm.
+  destruct (WF_end a Wa) as [[Hlt Ga]|(t0 & pa & Ea & Hlt & Ga & Apa & Spa & Rpa)]; fold L in Hlt, Ga;
+    rewrite Ga in Hm; [discriminate|]. fold L in Ea.
+  destruct (sorted_begin (tbl b) Sb) as [[Hgt Gb]|(ip0 & rest & Eb & Hgt & Gb)]; rewrite Gb in Hm; [discriminate|].
+  pose proof (iadd_seam a b t0 pa ip0 rest Ea Hlt Eb Sb) as Hi. cbv zeta in Hi. fold L in Hi. rewrite Hm in Hi.
+  unfold merge_cond in Hm. apply andb_true_iff in Hm as [Hm Hfc]. apply andb_true_iff in Hm as [Hm Hpos].
+  apply andb_true_iff in Hm as [Hne Heq].
+  assert (Ep0 : prem ip0 = []) by (apply (strict_first ip0 rest); rewrite <- Eb; exact Ob).
+  assert (ES : seam_of a = run [] t0) by (apply (seam_of_run a t0 pa); auto).
+  assert (NS : NoDup (ids (run [] t0))) by (rewrite <- ES; apply seam_nodup; auto).
+  destruct (seam_state (run [] t0) (prem pa) (length (padd ip0)) NS Spa) as (EC0 & NR & Npm).
+  { rewrite <- ES. exact Hpos. }
+  { intros x y Hx Hy E. apply setting_eq; auto. apply (Hco pa x y); auto. rewrite ES. exact Hx. }
+  remember (padd ip0) as F eqn:EF0. remember (firstn (length F) (prem pa)) as R eqn:ER0.
+  remember (skipn (length F) (prem pa)) as Q eqn:EQ0.
+  assert (Hlen : length F = length R) by (symmetry; apply list_eqb_val_length; exact Heq).
+  set (FR0 := combine F R).
+  assert (EF : map fst FR0 = F) by (apply map_fst_combine; exact Hlen).
+  assert (ER : map snd FR0 = R) by (apply map_snd_combine; exact Hlen).
+  (* the replay of b after its first point *)
+  assert (Hndb : nd_from (tbl b) []) by (apply (nd_from_of (tbl b) []); auto; constructor).
+  rewrite Eb in Hndb. cbn [nd_from] in Hndb. destruct Hndb as [_ Hndb].
+  assert (EB0 : step [] ip0 = F) by (rewrite step_rmall, Ep0, EF0; reflexivity).
+  rewrite EB0 in Hndb.
+  assert (Hsob : strict_ok_from rest F = true).
+  { unfold strict_ok in Ob. rewrite Eb in Ob. cbn [strict_ok_from] in Ob. rewrite Ep0 in Ob.
+    cbn [strict_rems app] in Ob. rewrite <- EF0 in Ob. exact Ob. }
+  pose proof (tail_loop_spec L rest FR0 (prems_nodup rest F Hsob Hndb)) as Etl. rewrite EF, ER in Etl.
+  rewrite Etl in Hi.
+  set (Pb := fun y => occurs y (tbl b)).
+  assert (HPr : marks_in Pb rest).
+  { intros kp x Hin Hx. exists kp. split; [rewrite Eb; now right|exact Hx]. }
+  assert (HI0 : Inv Pb FR0 F R).
+  { unfold Inv. repeat split.
+    - symmetry. apply map_ren_combine; auto. exact (nd_from_head _ _ Hndb).
+    - intros [f r] Hin. cbn [fst]. eapply in_combine_l; eauto.
+    - exact (nd_from_head _ _ Hndb).
+    - rewrite ER. exact NR.
+    - apply list_eqb_val_texts. exact Heq.
+    - intros x Hx. exists (0, ip0). split; [rewrite Eb; now left|]. left. cbn [snd]. now rewrite <- EF0.
+    - intros fr y Hin Py E. apply (Hfr pa ip0 Ga Gb fr y); auto.
+      unfold FR0 in Hin. rewrite ER0, combine_firstn_r, EF0 in Hin. exact Hin. }
+  set (mine' := mkP (padd pa) (Q ++ prem ip0)) in *.
+  set (M := if point_is_empty mine' then [] else [(L, mine')]).
+  assert (EM : (if point_is_empty mine' then t0 else t0 ++ [(L, mine')]) = t0 ++ M).
+  { unfold M. destruct (point_is_empty mine'); [now rewrite app_nil_r|reflexivity]. }
+  rewrite EM, <- app_assoc in Hi.
+  set (R' := tail_spec rest L FR0) in *.
+  exists (mkA (base a ++ base b) (t0 ++ M ++ R')). split; [exact Hi|]. split; [reflexivity|]. cbn [tbl base].
+  assert (KM : M = [] \/ exists p, M = [(L, p)]) by (unfold M; destruct (point_is_empty mine'); eauto).
+  assert (KMa : keys_eq [(L, pa)] L) by (intros kp [<-|[]]; reflexivity).
+  assert (Hsr : ssorted rest) by (rewrite Eb in Sb; now inversion Sb).
+  assert (SR : ssorted R') by (now apply tail_spec_sorted).
+  assert (KR : keys_gt R' L).
+  { intros kp Hin. apply tail_spec_keys in Hin as (kp0 & H0 & ->). specialize (Hgt kp0 H0). lia. }
+  pose proof (glue_sorted (tbl a) t0 [(L, pa)] M R' L Ea Sa Hlt KM SR KR) as Sc.
+  assert (Kc : keys_le (t0 ++ M ++ R') (L + length (base b))).
+  { apply (glue_keys t0 M R' L Hlt KM); [lia|]. intros kp Hin.
+    apply tail_spec_keys in Hin as (kp0 & H0 & ->).
+    assert (fst kp0 <= length (base b)) by (apply Kb; rewrite Eb; now right). lia. }
+  assert (Hl : forall k, k < L -> active_at (t0 ++ M ++ R') k = active_at (tbl a) k).
+  { intros k Hk. apply (glue_left (tbl a) t0 [(L, pa)] M R' L Ea Sa Hlt KMa KM SR KR k Hk). }
+  assert (EC : run (run [] t0) M = R).
+  { unfold M. destruct (point_is_empty mine') eqn:Em.
+    - unfold point_is_empty, mine' in Em. cbn [padd prem] in Em. rewrite Ep0, app_nil_r in Em.
+      apply andb_true_iff in Em as [_ Em]. apply is_nil_true in Em. rewrite Em in EC0. exact EC0.
+    - rewrite run_one, step_rmall. unfold mine'. cbn [padd prem]. rewrite Ep0, Apa, !app_nil_r. exact EC0. }
+  assert (Hsim : forall k, exists FR', Inv Pb FR' (active_at (tbl b) k) (active_at (t0 ++ M ++ R') (L + k))).
+  { intros k. rewrite (active_at_run _ _ Sc), (active_at_run _ k Sb).
+    rewrite (glue_upto t0 M R' L Hlt KM), !run_app, EC.
+    rewrite Eb, upto_cons. cbn [Nat.leb]. rewrite run_cons, EB0.
+    apply (sim_run Pb L k rest Hsr FR0 F R HI0 Hsob Hndb HPr). }
+  split; [exact Hl|]. split.
+  - intros k. destruct (Hsim k) as (FR' & HI). apply (inv_texts _ _ _ _ HI).
+  - apply WF_assemble; auto.
+    + intros k. destruct (Hsim k) as (FR' & HI). apply (inv_nodup _ _ _ _ HI).
+    + destruct (Hsim (length (base b))) as (FR' & HI).
+      rewrite (active_beyond (tbl b) Sb _ Kb), Fb in HI. destruct HI as (E & _). exact E.
+    + unfold strict_ok. rewrite !sok_app. apply andb_true_iff. split; [|apply andb_true_iff; split].
+      * unfold strict_ok in Oa. rewrite Ea, sok_app in Oa. apply andb_true_iff in Oa. tauto.
+      * unfold M. destruct (point_is_empty mine'); [reflexivity|]. cbn [strict_ok_from]. unfold mine'. cbn [prem].
+        rewrite Ep0, app_nil_r. rewrite strict_rems_total; [reflexivity| |].
+        -- rewrite <- (firstn_skipn (length F) (prem pa)), ids_app, <- EQ0 in Npm.
+           eapply nodup_app_r; eauto.
+        -- intros s Hs. eapply strict_rems_in; eauto.
+           rewrite <- (firstn_skipn (length F) (prem pa)). apply in_or_app. right. now rewrite <- EQ0.
+      * rewrite EC. apply (sim_strict Pb L rest FR0 F R HI0 Hsob Hndb HPr).
+Qed.
+
+(* the hypotheses of iadd_merge are satisfiable: independent operands ... *)
+Example ex_merge_same :
+  WF ex_a /\ WF ex_b_same /\ merges ex_a ex_b_same = true /\ coherent_seam ex_a /\ seam_fresh ex_a ex_b_same.
+Proof.
+  split; [exact ex_a_WF|]. split; [exact ex_b_same_WF|]. split; [reflexivity|]. split.
+  - apply coherent_seam_check; [apply ssortedb_sound|]; reflexivity.
+  - apply seam_fresh_disjointb; [apply ssortedb_sound|]; reflexivity.
+Qed.
+Example ex_merge_same_result :
+  iadd ex_a ex_b_same
+  = OK (mkA [97; 98; 99; 100; 101]%N
+            [(0, mkP [S_ 1 10; S_ 2 20] []); (3, mkP [] [S_ 2 20]); (5, mkP [] [S_ 1 10])]).
+Proof. reflexivity. Qed.
+Example ex_merge_prefix :
+  WF ex_a /\ WF ex_b_prefix /\ merges ex_a ex_b_prefix = true /\ coherent_seam ex_a /\ seam_fresh ex_a ex_b_prefix.
+Proof.
+  split; [exact ex_a_WF|]. split; [exact ex_b_prefix_WF|]. split; [reflexivity|]. split.
+  - apply coherent_seam_check; [apply ssortedb_sound|]; reflexivity.
+  - apply seam_fresh_disjointb; [apply ssortedb_sound|]; reflexivity.
+Qed.
+Example ex_merge_prefix_result :
+  iadd ex_a ex_b_prefix
+  = OK (mkA [97; 98; 99; 100; 101]%N
+            [(0, mkP [S_ 1 10; S_ 2 20] []); (2, mkP [] [S_ 2 20]); (5, mkP [] [S_ 1 10])]).
+Proof. reflexivity. Qed.
+
+(* ... and the two halves of one string, which share their objects: the seam merge restores the source *)
+Definition ex_src : astr := mkA [97; 98; 99; 100]%N [(0, mkP [S_ 1 10] []); (4, mkP [] [S_ 1 10])].
+Definition ex_half1 : astr := slice_core ex_src 0 2.
+Definition ex_half2 : astr := slice_core ex_src 2 4.
+Example ex_merge_halves :
+  WF ex_half1 /\ WF ex_half2 /\ merges ex_half1 ex_half2 = true
+  /\ coherent_seam ex_half1 /\ seam_fresh ex_half1 ex_half2 /\ iadd ex_half1 ex_half2 = OK ex_src.
+Proof.
+  split; [apply wfb_sound; reflexivity|]. split; [apply wfb_sound; reflexivity|]. split; [reflexivity|].
+  split; [|split; [|reflexivity]].
+  - apply coherent_seam_check; [apply ssortedb_sound|]; reflexivity.
+  - intros pa ip0 Ga Gb. vm_compute in Ga, Gb. inversion Ga; inversion Gb; subst.
+    intros fr y [<-|[]] _ E. exact E.
+Qed.
+
+(* what holds in the merging case without any assumption on shared identities *)
+Lemma iadd_merge_shape a b : WF a -> WF b -> merges a b = true ->
+  let L := length (base a) in
+  exists c, iadd a b = OK c /\ base c = base a ++ base b
+    /\ (forall k, k < L -> active_at (tbl c) k = active_at (tbl a) k)
+    /\ ssorted (tbl c) /\ keys_le (tbl c) (L + length (base b)).
+Proof.
+  intros Wa Wb Hm L.
+  pose proof Wa as (Sa & Ka & Oa & Na & Fa). pose proof Wb as (Sb & Kb & Ob & Nb & Fb).
+  unfold merges in Hm. fold L in Hm.
+  destruct (WF_end a Wa) as [[Hlt Ga]|(t0 & pa & Ea & Hlt & Ga & Apa & Spa & Rpa)]; fold L in Hlt, Ga;
+    rewrite Ga in Hm; [discriminate|]. fold L in Ea.
+  destruct (sorted_begin (tbl b) Sb) as [[Hgt Gb]|(ip0 & rest & Eb & Hgt & Gb)]; rewrite Gb in Hm; [discriminate|].
+  pose proof (iadd_seam a b t0 pa ip0 rest Ea Hlt Eb Sb) as Hi. cbv zeta in Hi. fold L in Hi. rewrite Hm in Hi.
+  unfold merge_cond in Hm. apply andb_true_iff in Hm as [Hm Hfc]. apply andb_true_iff in Hm as [Hm Hpos].
+  apply andb_true_iff in Hm as [Hne Heq].
+  assert (Ep0 : prem ip0 = []) by (apply (strict_first ip0 rest); rewrite <- Eb; exact Ob).
+  remember (padd ip0) as F eqn:EF0. remember (firstn (length F) (prem pa)) as R eqn:ER0.
+  assert (Hlen : length F = length R) by (symmetry; apply list_eqb_val_length; exact Heq).
+  set (FR0 := combine F R).
+  assert (EF : map fst FR0 = F) by (apply map_fst_combine; exact Hlen).
+  assert (ER : map snd FR0 = R) by (apply map_snd_combine; exact Hlen).
+  assert (Hndb : nd_from (tbl b) []) by (apply (nd_from_of (tbl b) []); auto; constructor).
+  rewrite Eb in Hndb. cbn [nd_from] in Hndb. destruct Hndb as [_ Hndb].
+  assert (EB0 : step [] ip0 = F) by (rewrite step_rmall, Ep0, EF0; reflexivity).
+  rewrite EB0 in Hndb.
+  assert (Hsob : strict_ok_from rest F = true).
+  { unfold strict_ok in Ob. rewrite Eb in Ob. cbn [strict_ok_from] in Ob. rewrite Ep0 in Ob.
+    cbn [strict_rems app] in Ob. rewrite <- EF0 in Ob. exact Ob. }
+  pose proof (tail_loop_spec L rest FR0 (prems_nodup rest F Hsob Hndb)) as Etl. rewrite EF, ER in Etl.
+  rewrite Etl in Hi.
+  set (mine' := mkP (padd pa) (skipn (length F) (prem pa) ++ prem ip0)) in *.
+  set (M := if point_is_empty mine' then [] else [(L, mine')]).
+  assert (EM : (if point_is_empty mine' then t0 else t0 ++ [(L, mine')]) = t0 ++ M).
+  { unfold M. destruct (point_is_empty mine'); [now rewrite app_nil_r|reflexivity]. }
+  rewrite EM, <- app_assoc in Hi.
+  set (R' := tail_spec rest L FR0) in *.
+  exists (mkA (base a ++ base b) (t0 ++ M ++ R')). split; [exact Hi|]. split; [reflexivity|]. cbn [tbl base].
+  assert (KM : M = [] \/ exists p, M = [(L, p)]) by (unfold M; destruct (point_is_empty mine'); eauto).
+  assert (KMa : keys_eq [(L, pa)] L) by (intros kp [<-|[]]; reflexivity).
+  assert (Hsr : ssorted rest) by (rewrite Eb in Sb; now inversion Sb).
+  assert (SR : ssorted R') by (now apply tail_spec_sorted).
+  assert (KR : keys_gt R' L).
+  { intros kp Hin. apply tail_spec_keys in Hin as (kp0 & H0 & ->). specialize (Hgt kp0 H0). lia. }
+  split; [|split].
+  - intros k Hk. apply (glue_left (tbl a) t0 [(L, pa)] M R' L Ea Sa Hlt KMa KM SR KR k Hk).
+  - apply (glue_sorted (tbl a) t0 [(L, pa)] M R' L Ea Sa Hlt KM SR KR).
+  - apply (glue_keys t0 M R' L Hlt KM); [lia|]. intros kp Hin.
+    apply tail_spec_keys in Hin as (kp0 & H0 & ->).
+    assert (fst kp0 <= length (base b)) by (apply Kb; rewrite Eb; now right). lia.
+Qed.
+
+(* ---------- every setting of the result comes from one of the operands ---------- *)
+Lemma tget_In_any k : forall t p, tget k t = Some p -> In (k, p) t.
+Proof.
+  induction t as [|[k' p'] t IH]; intros p; cbn [tget]; [discriminate|].
+  destruct (Nat.eqb_spec k k') as [->|_]; [intros H; inversion H; now left|].
+  destruct (k <? k'); [discriminate|]. intros H. right. auto.
+Qed.
+
+Lemma in_tput k p : forall t kp, In kp (tput k p t) -> kp = (k, p) \/ In kp t.
+Proof.
+  induction t as [|[k' p'] t IH]; intros kp; cbn [tput].
+  - intros [<-|[]]. now left.
+  - destruct (Nat.eqb k k'); [intros [<-|H]; [now left|right; now right]|].
+    destruct (k <? k'); [intros [<-|H]; [now left|now right]|].
+    intros [<-|H]; [right; now left|]. apply IH in H as [H|H]; auto. right. now right.
+Qed.
+
+Lemma in_tdel k : forall t kp, In kp (tdel k t) -> In kp t.
+Proof.
+  induction t as [|[k' p'] t IH]; intros kp; cbn [tdel]; auto.
+  destruct (Nat.eqb k k'); [intros H; now right|]. intros [<-|H]; [now left|right; auto].
+Qed.
+
+Lemma in_set_nth {A} (v : A) : forall l i x, In x (set_nth i v l) -> x = v \/ In x l.
+Proof.
+  induction l as [|y l IH]; intros [|i] x; cbn; try tauto.
+  - intros [<-|H]; auto.
+  - intros [<-|H]; auto. apply IH in H. tauto.
+Qed.
+
+Lemma in_remove_nth {A} : forall (l : list A) i x, In x (remove_nth i l) -> In x l.
+Proof.
+  induction l as [|y l IH]; intros [|i] x; cbn; try tauto.
+  intros [<-|H]; auto. apply IH in H. tauto.
+Qed.
+
+Lemma retarget_in : forall pairs rems fnd repl rems' f' r',
+  retarget pairs rems fnd repl = OK (rems', f', r') ->
+  (forall x, In x rems' -> In x rems \/ In x repl) /\ (forall x, In x r' -> In x repl).
+Proof.
+  induction pairs as [|[fi ai] pairs IH]; intros rems fnd repl rems' f' r' H; cbn [retarget] in H.
+  - inversion H; subst. split; auto.
+  - destruct (nth_error repl fi) as [v|] eqn:En; [|discriminate].
+    destruct ((fi <? length fnd) && (ai <? length rems)); [|discriminate].
+    apply IH in H as [H1 H2]. apply nth_error_In in En. split.
+    + intros x Hx. apply H1 in Hx as [Hx|Hx].
+      * apply in_set_nth in Hx as [->|Hx]; auto.
+      * right. eapply in_remove_nth; eauto.
+    + intros x Hx. apply H2 in Hx. eapply in_remove_nth; eauto.
+Qed.
+
+Lemma iadd_loop_occurs L seam : forall inc t fnd repl t',
+  iadd_loop inc L seam t fnd repl = OK t' ->
+  forall x, occurs x t' -> occurs x t \/ occurs x inc \/ In x repl.
+Proof.
+  induction inc as [|[k0 ip] rest IH]; intros t fnd repl t' H x Ox; cbn [iadd_loop] in H.
+  - inversion H; subst. now left.
+  - assert (Oip : forall y, In y (padd ip) \/ In y (prem ip) -> occurs y ((k0, ip) :: rest)).
+    { intros y Hy. exists (k0, ip). split; [now left|exact Hy]. }
+    assert (Orest : forall y, occurs y rest -> occurs y ((k0, ip) :: rest)).
+    { intros y (kp & H1 & H2). exists kp. split; [now right|exact H2]. }
+    destruct (tget (k0 + L) t) as [mine|] eqn:G.
+    + apply tget_In_any in G.
+      assert (Omine : forall y, In y (padd mine) \/ In y (prem mine) -> occurs y t).
+      { intros y Hy. exists (k0 + L, mine). split; auto. }
+      destruct (_ && _ : bool) in H.
+      * apply (IH _ _ _ _ H) in Ox as [(kp & H1 & H2)|[Ox|Ox]].
+        -- assert (Hkp : kp = (k0 + L, mkP (padd mine) (skipn (length (padd ip)) (prem mine) ++ prem ip)) \/ In kp t).
+           { destruct (point_is_empty _) in H1; [right; eapply in_tdel; eauto|now apply in_tput in H1]. }
+           destruct Hkp as [->|Hkp]; [|left; exists kp; auto]. cbn [snd padd prem] in H2.
+           destruct H2 as [H2|H2]; [left; apply Omine; now left|].
+           apply in_app_or in H2 as [H2|H2]; [|right; left; apply Oip; now right].
+           left. apply Omine. right. rewrite <- (firstn_skipn (length (padd ip)) (prem mine)). apply in_or_app. now right.
+        -- right. left. auto.
+        -- left. apply Omine. right. rewrite <- (firstn_skipn (length (padd ip)) (prem mine)). apply in_or_app. now left.
+      * apply (IH _ _ _ _ H) in Ox as [(kp & H1 & H2)|[Ox|Ox]]; [|right; left; auto|right; right; exact Ox].
+        apply in_tput in H1 as [->|H1]; [|left; exists kp; auto]. cbn [snd padd prem] in H2.
+        destruct H2 as [H2|H2]; apply in_app_or in H2 as [H2|H2];
+          try (left; apply Omine; tauto); right; left; apply Oip; tauto.
+    + destruct (retarget _ _ _ _) as [[[rems f'] r']|e] eqn:Ert; [|discriminate].
+      apply retarget_in in Ert as [R1 R2].
+      apply (IH _ _ _ _ H) in Ox as [(kp & H1 & H2)|[Ox|Ox]]; [|right; left; auto|right; right; auto].
+      apply in_tput in H1 as [->|H1]; [|left; exists kp; auto]. cbn [snd padd prem] in H2.
+      destruct H2 as [H2|H2]; [right; left; apply Oip; now left|].
+      apply R1 in H2 as [H2|H2]; [right; left; apply Oip; now right|right; right; exact H2].
+Qed.
+
+Theorem iadd_occurs a b c : iadd a b = OK c ->
+  forall x, occurs x (tbl c) -> occurs x (tbl a) \/ occurs x (tbl b).
+Proof.
+  unfold iadd, bind. destruct (iadd_loop _ _ _ _ _ _) as [t|e] eqn:E; [|discriminate].
+  intros H x Ox. inversion H; subst. cbn [tbl] in Ox.
+  apply (iadd_loop_occurs _ _ _ _ _ _ _ E) in Ox as [Ox|[Ox|[]]]; auto.
+Qed.
+
+(* identity determines text across the two operands *)
+Definition coherent_pair (a b : astr) : Prop :=
+  forall x y, occurs x (tbl a) -> occurs y (tbl b) -> sid x = sid y -> stxt x = stxt y.
+
+Theorem iadd_coherent a b c :
+  coherent (tbl a) -> coherent (tbl b) -> coherent_pair a b -> iadd a b = OK c -> coherent (tbl c).
+Proof.
+  intros Ca Cb Cab E x y Ox Oy Es.
+  apply (iadd_occurs a b c E) in Ox, Oy. destruct Ox as [Ox|Ox], Oy as [Oy|Oy]; auto.
+  symmetry. apply Cab; auto.
+Qed.
+
+(* ---------- main theorems ---------- *)
+Section Main.
+Variables a b : astr.
+Hypothesis Wa : WF a.
+Hypothesis Wb : WF b.
+Let L := length (base a).
+
+(* 1. the IndexError branch is unreachable; text; left operand; sortedness and key bound *)
+Theorem iadd_shape :
+  exists c, iadd a b = OK c /\ base c = base a ++ base b
+    /\ (forall k, k < L -> active_at (tbl c) k = active_at (tbl a) k)
+    /\ ssorted (tbl c) /\ keys_le (tbl c) (L + length (base b)).
+Proof.
+  destruct (merges a b) eqn:Hm.
+  - apply iadd_merge_shape; auto.
+  - destruct (iadd_nomerge a b Wa Wb Hm) as (c & H1 & H2 & H3 & H4 & (H5 & H6 & _)).
+    exists c. repeat split; auto. rewrite H2, app_length in H6. exact H6.
+Qed.
+
+Theorem iadd_ok : exists c, iadd a b = OK c.
+Proof. destruct iadd_shape as (c & H & _). eauto. Qed.
+
+Theorem iadd_base c : iadd a b = OK c -> base c = base a ++ base b.
+Proof. destruct iadd_shape as (c' & H & H2 & _). intros E. rewrite H in E. inversion E; subst. exact H2. Qed.
+
+(* 2. the characters of the left operand keep their settings, same objects *)
+Theorem iadd_left c : iadd a b = OK c -> forall k, k < L -> active_at (tbl c) k = active_at (tbl a) k.
+Proof. destruct iadd_shape as (c' & H & _ & H3 & _). intros E. rewrite H in E. inversion E; subst. exact H3. Qed.
+
+(* 3. the characters of the right operand keep the texts of their settings, in order.  The only
+   assumption beyond well-formedness is that an identity has one text at the seam of a (coherent_seam),
+   which follows from coherence of a's table. *)
+Theorem iadd_right_seam c : coherent_seam a -> iadd a b = OK c ->
+  forall k, map stxt (active_at (tbl c) (L + k)) = map stxt (active_at (tbl b) k).
+Proof.
+  intros Hco E k. destruct (merges a b) eqn:Hm.
+  - destruct (iadd_merge a b Wa Wb Hm Hco) as (c' & H1 & _ & _ & H4 & _).
+    rewrite H1 in E. inversion E; subst. apply H4.
+  - destruct (iadd_nomerge a b Wa Wb Hm) as (c' & H1 & _ & _ & H4 & _).
+    rewrite H1 in E. inversion E; subst. fold L. now rewrite H4.
+Qed.
+
+Theorem iadd_right c : coherent (tbl a) -> iadd a b = OK c ->
+  forall k, map stxt (active_at (tbl c) (L + k)) = map stxt (active_at (tbl b) k).
+Proof. intros Hco. apply iadd_right_seam. apply coherent_seam_of; auto. apply Wa. Qed.
+
+(* 3'. without a merge the objects themselves are preserved *)
+Theorem iadd_right_ident c : merges a b = false -> iadd a b = OK c ->
+  forall k, active_at (tbl c) (L + k) = active_at (tbl b) k.
+Proof.
+  intros Hm E k. destruct (iadd_nomerge a b Wa Wb Hm) as (c' & H1 & _ & _ & H4 & _).
+  rewrite H1 in E. inversion E; subst. apply H4.
+Qed.
+
+(* 4. the result is well formed *)
+Theorem iadd_WF_seam c : coherent_seam a -> iadd a b = OK c -> WF c.
+Proof.
+  intros Hco E. destruct (merges a b) eqn:Hm.
+  - destruct (iadd_merge a b Wa Wb Hm Hco) as (c' & H1 & _ & _ & _ & H5).
+    rewrite H1 in E. inversion E; subst. exact H5.
+  - destruct (iadd_nomerge a b Wa Wb Hm) as (c' & H1 & _ & _ & _ & H5).
+    rewrite H1 in E. inversion E; subst. exact H5.
+Qed.
+
+Theorem iadd_WF c : coherent (tbl a) -> iadd a b = OK c -> WF c.
+Proof. intros Hco. apply iadd_WF_seam. apply coherent_seam_of; auto. apply Wa. Qed.
+End Main.
+
+(* ---------- 5. special cases ---------- *)
+Lemma merges_no_end a b : tget (length (base a)) (tbl a) = None -> merges a b = false.
+Proof. intros H. unfold merges. now rewrite H. Qed.
+
+Lemma merges_no_begin a b : tget 0 (tbl b) = None -> merges a b = false.
+Proof. intros H. unfold merges. rewrite H. destruct (tget _ (tbl a)); reflexivity. Qed.
+
+Lemma merges_test_fails a b pa ip0 :
+  tget (length (base a)) (tbl a) = Some pa -> tget 0 (tbl b) = Some ip0 ->
+  merge_cond pa ip0 (seam_of a) (tbl b) = false -> merges a b = false.
+Proof. intros H1 H2 H3. unfold merges. now rewrite H1, H2. Qed.
+
+(* plain text on the right: see also iadd_plain *)
+Lemma iadd_no_fmt a b : tbl b = [] -> iadd a b = OK (mkA (base a ++ base b) (tbl a)).
+Proof. destruct b as [bb tb]. cbn. intros ->. apply (iadd_plain a bb). Qed.
+
+Lemma merges_nil_left a b : WF a -> base a = [] -> merges a b = false.
+Proof.
+  intros Wa E. destruct (WF_end a Wa) as [[_ Ga]|(t0 & pa & Ea & Hlt & Ga & Apa & Spa & Rpa)].
+  - now apply merges_no_end.
+  - unfold merges. rewrite Ga. destruct (tget 0 (tbl b)) as [ip0|]; [|reflexivity].
+    rewrite E in Hlt. cbn [length] in Hlt.
+    assert (t0 = []) by (destruct t0 as [|kp t0]; auto; specialize (Hlt kp (or_introl eq_refl)); lia). subst t0.
+    assert (Ep : prem pa = []).
+    { destruct (prem pa) as [|s r]; auto. cbn in Spa. discriminate. }
+    unfold merge_cond. rewrite Ep, firstn_nil. destruct (padd ip0); reflexivity.
+Qed.
+
+Theorem iadd_nil_left a b : WF a -> WF b -> base a = [] ->
+  exists c, iadd a b = OK c /\ base c = base b
+    /\ (forall k, active_at (tbl c) k = active_at (tbl b) k) /\ WF c.
+Proof.
+  intros Wa Wb E. destruct (iadd_nomerge a b Wa Wb (merges_nil_left a b Wa E)) as (c & H1 & H2 & _ & H4 & H5).
+  exists c. rewrite E in H2, H4. cbn [length app Nat.add] in H2, H4. auto.
+Qed.
+
+(* ---------- 6. add and join ---------- *)
+Lemma add_is_iadd a b : add a b = iadd a b.
+Proof. reflexivity. Qed.
+
+Definition iadd_res (r : res astr) (x : astr) : res astr := do acc <- r; iadd acc x.
+
+Lemma fold_iadd_err l e : fold_left iadd_res l (Err e) = Err e.
+Proof. induction l as [|x l IH]; [reflexivity|]. cbn. exact IH. Qed.
+
+Lemma join_from_fold : forall l acc, join_from acc l = fold_left iadd_res l (OK acc).
+Proof.
+  induction l as [|x l IH]; intros acc; [reflexivity|]. cbn [join_from fold_left].
+  unfold iadd_res at 2. cbn [bind]. destruct (iadd acc x) as [c|e]; cbn [bind]; [apply IH|].
+  now rewrite fold_iadd_err.
+Qed.
+
+Theorem join_astr_fold x xs : join_astr (x :: xs) = fold_left iadd_res xs (OK x).
+Proof. apply join_from_fold. Qed.
+
+Lemma join_astr_nil : join_astr [] = OK (mkA [] []).
+Proof. reflexivity. Qed.
+
+Lemma join_astr_two a b : join_astr [a; b] = iadd a b.
+Proof. cbn. destruct (iadd a b); reflexivity. Qed.
+
+(* join of well-formed operands whose tables are coherent together *)
+Definition tbls (l : list astr) : fmts := flat_map tbl l.
+
+Lemma occurs_app x t1 t2 : occurs x (t1 ++ t2) <-> occurs x t1 \/ occurs x t2.
+Proof.
+  unfold occurs. split.
+  - intros (kp & H1 & H2). apply in_app_or in H1 as [H1|H1]; [left|right]; eauto.
+  - intros [(kp & H1 & H2)|(kp & H1 & H2)]; exists kp; split; auto; apply in_or_app; auto.
+Qed.
+
+Lemma coherent_sub t t' : (forall x, occurs x t' -> occurs x t) -> coherent t -> coherent t'.
+Proof. intros H C x y Ox Oy. apply C; auto. Qed.
+
+Theorem join_from_WF : forall xs acc, WF acc -> Forall WF xs -> coherent (tbl acc ++ tbls xs) ->
+  exists c, join_from acc xs = OK c /\ WF c /\ base c = base acc ++ concat (map base xs) /\ coherent (tbl c).
+Proof.
+  induction xs as [|x xs IH]; intros acc Wacc Wxs Hco.
+  - exists acc. cbn. rewrite app_nil_r. split; [reflexivity|]. split; [exact Wacc|]. split; [reflexivity|].
+    apply (coherent_sub _ _ (fun y Oy => proj2 (occurs_app y _ _) (or_introl Oy)) Hco).
+  - inversion Wxs as [|? ? Wx Wxs']; subst. cbn [join_from].
+    destruct (iadd_ok acc x Wacc Wx) as (c1 & E1). rewrite E1. cbn [bind].
+    assert (Cacc : coherent (tbl acc)).
+    { apply (coherent_sub _ _ (fun y Oy => proj2 (occurs_app y _ _) (or_introl Oy)) Hco). }
+    assert (W1 : WF c1) by (apply (iadd_WF acc x Wacc Wx c1 Cacc E1)).
+    assert (C1 : coherent (tbl c1 ++ tbls xs)).
+    { apply (coherent_sub (tbl acc ++ tbls (x :: xs))); auto. intros y Oy.
+      apply occurs_app. cbn [tbls flat_map]. apply occurs_app in Oy as [Oy|Oy].
+      - apply (iadd_occurs acc x c1 E1) in Oy as [Oy|Oy]; auto. right. apply occurs_app. now left.
+      - right. apply occurs_app. now right. }
+    destruct (IH c1 W1 Wxs' C1) as (c & E & Wc & Bc & Cc). exists c.
+    split; [exact E|]. split; [exact Wc|]. split; [|exact Cc].
+    rewrite Bc, (iadd_base acc x Wacc Wx c1 E1). cbn [map concat]. now rewrite app_assoc.
+Qed.
+
+Theorem join_WF x xs : Forall WF (x :: xs) -> coherent (tbls (x :: xs)) ->
+  exists c, join_astr (x :: xs) = OK c /\ WF c /\ base c = concat (map base (x :: xs)) /\ coherent (tbl c).
+Proof.
+  intros W Hco. inversion W; subst. cbn [join_astr]. apply join_from_WF; auto.
+Qed.
+
+(* ---------- the repaired seam test (F26) ---------- *)
+(* b holds, later on, the very object of a whose stop marker would be merged at the seam.  Before the
+   repair the merge happened, that object then stood for b's first setting as well, a stop marker of b
+   removed the wrong one of the two and the order of the settings of b's last character changed
+   ([30;10] instead of [10;30]).  The repaired test skips the merge: plain concatenation. *)
+Definition cex_a : astr := mkA [97; 98]%N [(0, mkP [S_ 1 10] []); (2, mkP [] [S_ 1 10])].
+Definition cex_b : astr :=
+  mkA [99; 100; 101; 102]%N
+      [(0, mkP [S_ 7 10] []); (1, mkP [S_ 8 30] []); (2, mkP [S_ 1 10] []); (3, mkP [] [S_ 1 10]);
+       (4, mkP [] [S_ 7 10; S_ 8 30])].
+Definition cex_c : astr :=
+  mkA [97; 98; 99; 100; 101; 102]%N
+      [(0, mkP [S_ 1 10] []); (2, mkP [S_ 7 10] [S_ 1 10]); (3, mkP [S_ 8 30] []); (4, mkP [S_ 1 10] []);
+       (5, mkP [] [S_ 1 10]); (6, mkP [] [S_ 7 10; S_ 8 30])].
+
+Example ex_shared_identity_repaired :
+  WF cex_a /\ WF cex_b /\ coherent (tbl cex_a) /\ merges cex_a cex_b = false
+  /\ iadd cex_a cex_b = OK cex_c /\ WF cex_c
+  /\ map (fun k => map stxt (active_at (tbl cex_c) (2 + k))) (seq 0 4)
+     = map (fun k => map stxt (active_at (tbl cex_b) k)) (seq 0 4)
+  /\ map stxt (active_at (tbl cex_c) (2 + 3)) = [[10%N]; [30%N]].
+Proof.
+  split; [apply wfb_sound; reflexivity|]. split; [apply wfb_sound; reflexivity|].
+  split; [apply coherent_check; reflexivity|]. split; [reflexivity|]. split; [reflexivity|].
+  split; [apply wfb_sound; reflexivity|]. split; reflexivity.
+Qed.
+
+(* the same fact for every position, from the theorems *)
+Example ex_shared_identity_all c : iadd cex_a cex_b = OK c ->
+  WF c /\ forall k, active_at (tbl c) (2 + k) = active_at (tbl cex_b) k.
+Proof.
+  destruct ex_shared_identity_repaired as (Wa & Wb & Ca & Hm & _). intros E. split.
+  - exact (iadd_WF cex_a cex_b Wa Wb c Ca E).
+  - exact (iadd_right_ident cex_a cex_b Wa Wb c Hm E).
+Qed.
+
+(* ---------- counterexample: why iadd_right and iadd_WF need coherence of a ---------- *)
+(* the model can represent a stop marker whose text differs from the text of the start marker
+   with the same identity (a Python object cannot).  The merge test reads the stop marker, the
+   display reads the start marker (coherent_seam fails). *)
+Definition cex2_a : astr := mkA [97; 98]%N [(0, mkP [S_ 1 10] []); (2, mkP [] [S_ 1 99])].
+Definition cex2_b : astr := mkA [99]%N [(0, mkP [S_ 5 99] []); (1, mkP [] [S_ 5 99])].
+Example cex_incoherent :
+  WF cex2_a /\ WF cex2_b /\ merges cex2_a cex2_b = true
+  /\ iadd cex2_a cex2_b = OK (mkA [97; 98; 99]%N [(0, mkP [S_ 1 10] []); (3, mkP [] [S_ 1 99])])
+  /\ map stxt (active_at (tbl cex2_b) 0) = [[99%N]]
+  /\ ~ coherent_seam cex2_a /\ ~ coherent (tbl cex2_a).
+Proof.
+  split; [apply wfb_sound; reflexivity|]. split; [apply wfb_sound; reflexivity|]. split; [reflexivity|].
+  split; [reflexivity|]. split; [reflexivity|].
+  assert (N : ~ coherent_seam cex2_a).
+  { intros H. specialize (H (mkP [] [S_ 1 99]) (S_ 1 10) (S_ 1 99) eq_refl).
+    assert (E : [10%N] = [99%N]); [|discriminate]. apply H; [now left|now left|reflexivity]. }
+  split; [exact N|]. intros H. apply N. apply coherent_seam_of; auto. apply ssortedb_sound. reflexivity.
+Qed.
+
+(* the main theorems are not vacuous *)
+Example ex_main_applies : exists c, iadd ex_a ex_b_same = OK c /\ WF c
+  /\ (forall k, map stxt (active_at (tbl c) (2 + k)) = map stxt (active_at (tbl ex_b_same) k))
+  /\ coherent (tbl c).
+Proof.
+  destruct ex_merge_same as (Wa & Wb & _ & Hco).
+  assert (Ca : coherent (tbl ex_a)) by (apply coherent_check; reflexivity).
+  destruct (iadd_ok ex_a ex_b_same Wa Wb) as (c & E). exists c. split; [exact E|]. split; [|split].
+  - exact (iadd_WF ex_a ex_b_same Wa Wb c Ca E).
+  - exact (iadd_right ex_a ex_b_same Wa Wb c Ca E).
+  - apply (iadd_coherent ex_a ex_b_same c Ca); auto.
+    + apply coherent_check; reflexivity.
+    + intros x y Ox Oy. apply (coherent_check (tbl ex_a ++ tbl ex_b_same) eq_refl); apply occurs_app; auto.
+Qed.
+
+Example ex_join : Forall WF [ex_a; ex_b_same; ex_b_late] /\ coherent (tbls [ex_a; ex_b_same; ex_b_late]).
+Proof.
+  split; [|apply coherent_check; reflexivity].
+  constructor; [exact ex_a_WF|]. constructor; [exact ex_b_same_WF|]. constructor; [exact ex_b_late_WF|constructor].
+Qed.
+
+Example ex_nil_left :
+  WF (mkA [] [(0, mkP [] [])]) /\ WF ex_b_same /\ iadd (mkA [] [(0, mkP [] [])]) ex_b_same = OK ex_b_same.
+Proof. split; [apply wfb_sound; reflexivity|]. split; [apply wfb_sound; reflexivity|reflexivity]. Qed.
+
+Print Assumptions iadd_shape.
+Print Assumptions iadd_ok.
+Print Assumptions iadd_base.
+Print Assumptions iadd_left.
+Print Assumptions iadd_right.
+Print Assumptions iadd_right_seam.
+Print Assumptions iadd_right_ident.
+Print Assumptions iadd_WF.
+Print Assumptions iadd_WF_seam.
+Print Assumptions iadd_occurs.
+Print Assumptions iadd_coherent.
+Print Assumptions iadd_nomerge.
+Print Assumptions iadd_merge.
+Print Assumptions iadd_nil_left.
+Print Assumptions join_astr_fold.
+Print Assumptions join_WF.
+Print Assumptions wfb_sound.
+Print Assumptions coherent_check.
+Print Assumptions coherent_seam_of.
+Print Assumptions merges_seam_fresh.
+Print Assumptions ex_shared_identity_repaired.
+Print Assumptions cex_incoherent.
